@@ -95,6 +95,19 @@ def annotate(draw, lines, level=3, keep=False):
             if has_e:
                 for t in draw(st.lists(TEXT, min_size=1, max_size=2)):
                     out.append('E %s %s' % (addr, t))
+        elif d == 'i' and ' ' not in rest and draw(P(40)):
+            # an ignored block is an entry like any other: title, description, registers, start and end comments
+            last_block = addr
+            out.append('%s %s' % (line, draw(TEXT)))
+            if draw(P(40)):
+                out.append('D %s %s' % (addr, draw(TEXT)))
+            if draw(P(30)):
+                out.append('R %s %s %s' % (addr, draw(st.sampled_from(REGS)), draw(TEXT)))
+            if draw(P(50)):
+                out.append('N %s %s' % (addr, draw(TEXT)))
+            if draw(P(30)):
+                out.append('E %s %s' % (addr, draw(TEXT)))
+            stats['i-annotated'] = stats.get('i-annotated', 0) + 1
         elif d in 'BCSTW':
             if level > 1 and draw(P(15)) and addr != last_block:
                 out.append('N %s %s' % (addr, draw(TEXT)))
